@@ -393,7 +393,7 @@ pub fn run(ctx: &Ctx) -> PropResult {
             }
         }
     }));
-    wls.push(Workload::cases("from_ymd(hms)_random", ctx.n(150_000, 5_000_000), |rec, idx, rng| {
+    wls.push(Workload::cases("from_ymd(hms)_random", ctx.count(150_000, 5_000_000), |rec, idx, rng| {
         let y = boundary_year(rng);
         let m = boundary_u32(rng, 12);
         let d = boundary_u32(rng, 31);
@@ -427,20 +427,46 @@ pub fn run(ctx: &Ctx) -> PropResult {
         for x in [0i128, 1, DN as i128 - 1, DN as i128, DN as i128 + 1, u32::MAX as i128, 1 << 32, 1 << 63, u64::MAX as i128] {
             judge_scalar(rec, 1, x);
         }
+        // nanosecond counts whose number of whole seconds / milliseconds / minutes wraps a 32-bit
+        // intermediate back into the day (k·2^32 units + an in-day remainder)
+        for unit in [1_000_000_000i128, 1_000_000, 1_000, 60_000_000_000] {
+            for k in 1..=4i128 {
+                for r in [0i128, 1, 43_200_000_000_000, DN as i128 - 1] {
+                    let x = k * (1i128 << 32) * unit + r;
+                    if x <= u64::MAX as i128 {
+                        judge_scalar(rec, 1, x);
+                    }
+                }
+            }
+        }
+        for k in 1..=3i128 {
+            // second counts that wrap a 16-bit / 17-bit intermediate
+            judge_scalar(rec, 0, k * 65_536);
+            judge_scalar(rec, 0, k * 131_072 + 5);
+        }
         for x in [i32::MIN as i128, -86_401, -86_400, -86_399, -1, 0, 1, 86_399, 86_400, 86_401, i32::MAX as i128] {
             judge_scalar(rec, 2, x);
         }
     }));
-    wls.push(Workload::cases("scalars_random", ctx.n(60_000, 1_000_000), |rec, idx, rng| {
+    wls.push(Workload::cases("scalars_random", ctx.count(60_000, 1_000_000), |rec, idx, rng| {
         let kind = (idx % 3) as u8;
         let x: i128 = match kind {
             0 => match rng.below(3) { 0 => rng.next() as u32 as i128, _ => rng.below(2 * 86_400) as i128 },
-            1 => match rng.below(3) { 0 => rng.next() as i128, _ => rng.below(2 * DN) as i128 },
+            1 => match rng.below(4) {
+                0 => rng.next() as i128,
+                1 => {
+                    // k·2^32 whole units (s, ms, µs, min) + an in-day remainder
+                    let unit = *rng.pick(&[1_000_000_000i128, 1_000_000, 1_000, 60_000_000_000]);
+                    let x = rng.range_i128(1, 4) * (1i128 << 32) * unit + rng.below(DN) as i128;
+                    x.min(u64::MAX as i128)
+                }
+                _ => rng.below(2 * DN) as i128,
+            },
             _ => match rng.below(3) { 0 => rng.next() as i32 as i128, _ => rng.range_i64(-2 * 86_400, 2 * 86_400) as i128 },
         };
         judge_scalar(rec, kind, x);
     }));
-    wls.push(Workload::cases("datetime_setters", ctx.n(200_000, 8_000_000), |rec, idx, rng| {
+    wls.push(Workload::cases("datetime_setters", ctx.count(200_000, 8_000_000), |rec, idx, rng| {
         let f = (idx % 10) as usize;
         let (i, off, at_end) = if rng.chance(1, 3) {
             // the very ends of the range, with an offset whose local time is still inside
@@ -457,7 +483,7 @@ pub fn run(ctx: &Ctx) -> PropResult {
         };
         judge_dt_setter(rec, i, off, f, setter_value(rng, f), at_end);
     }));
-    wls.push(Workload::cases("date_and_time_setters", ctx.n(100_000, 3_000_000), |rec, idx, rng| {
+    wls.push(Workload::cases("date_and_time_setters", ctx.count(100_000, 3_000_000), |rec, idx, rng| {
         if idx % 2 == 0 {
             let day = match rng.below(4) {
                 0 => rng.range_i64(cal::MIN_DAY, cal::MIN_DAY + 400),
